@@ -288,3 +288,24 @@ Fixpoint resolve_all (fx : bool) (fuel : nat) (s : st) : list st :=
 Definition apply_all (fx : bool) (s : st) (ops : list op) : list st :=
   let s1 := fold_left on_update ops s in
   resolve_all fx (fuel_of s1) s1.
+
+(* ---------- wlIdsAscending on the real identifiers: three Go strings compared with == and < ----------
+   Go strings are byte sequences; s < t is the lexicographic order on bytes (a proper prefix is smaller). *)
+Definition gstr := list N.
+Fixpoint slt (a b : gstr) : bool :=
+  match a, b with
+  | [], [] => false
+  | [], _ :: _ => true
+  | _ :: _, [] => false
+  | x :: a', y :: b' => if x <? y then true else if x =? y then slt a' b' else false
+  end.
+Definition seqb (a b : gstr) : bool := list_eqb N.eqb a b.
+
+Definition sid := (gstr * gstr * gstr)%type.   (* OrchestratorId, WorkloadId, EndpointId *)
+Definition sid_eqb (a b : sid) : bool :=
+  let '(a1, a2, a3) := a in let '(b1, b2, b3) := b in seqb a1 b1 && seqb a2 b2 && seqb a3 b3.
+
+(* func wlIdsAscending(id1, id2 *types.WorkloadEndpointID) bool *)
+Definition sasc (a b : sid) : bool :=
+  let '(a1, a2, a3) := a in let '(b1, b2, b3) := b in
+  if seqb a1 b1 then (if seqb a2 b2 then slt a3 b3 else slt a2 b2) else slt a1 b1.
